@@ -60,7 +60,7 @@ meta = {'id': sid, 'property': pid, 'title': title, 'files': files,
         'needs_to_manifest': need[:1200] if len(need) >= 30 else 'see notes.md',
         'origin': 'written by a fresh sub-agent that was given only the text of %s and a scratch worktree of the repository '
                   '(nothing from /verif); round 6: cooperating sites, multi-step sequences, faults at a particular point, '
-                  'unusual inputs' % pid,
+                  'unusual inputs (round 7: with an avoid list of stored titles)' % pid,
         'rebased': False,
         'confirmed': {'repo_head': head,
                       'how': 'fresh scratch worktree of /repo at repo_head; `git apply patch.diff`; /venv/bin/python -m pytest -q -p '
